@@ -27,7 +27,7 @@ ASSUMPTIONS = ["other inputs use names disjoint from the input under test so tha
                "hash-seed runs use the real interpreter as a subprocess; all other runs are in-process"]
 BUDGET = {"quick": {"shards": 8, "examples": 50}, "thorough": {"shards": 16, "examples": 800}}
 
-STEPS = ["prefilled-output", "cwd-inside-sub", "same", "cwd-rel", "cwd-dotslash", "cwd-updown", "cwd-dot", "moved", "order", "hashseed", "others-before",
+STEPS = ["prefilled-whitespace-twin", "via-symlinked-parent", "prefilled-output", "cwd-inside-sub", "same", "cwd-rel", "cwd-dotslash", "cwd-updown", "cwd-dot", "moved", "order", "hashseed", "others-before",
          "others-after", "others-both", "api-successive"]
 
 
@@ -51,8 +51,8 @@ def strategy(tier):
 
 def G_weighted_steps():
     from vlib import gen_cmake as G
-    return G.weighted((2, st.sampled_from(["prefilled-output", "same", "order"])),
-                      (5, st.sampled_from(["cwd-rel", "cwd-dotslash", "cwd-updown", "cwd-dot", "moved", "cwd-inside-sub"])),
+    return G.weighted((2, st.sampled_from(["prefilled-whitespace-twin", "prefilled-output", "same", "order"])),
+                      (5, st.sampled_from(["via-symlinked-parent", "cwd-rel", "cwd-dotslash", "cwd-updown", "cwd-dot", "moved", "cwd-inside-sub"])),
                       (3, st.sampled_from(["others-before", "others-after", "others-both", "api-successive"])),
                       (1, st.just("hashseed")))
 
@@ -143,6 +143,19 @@ def evaluate(case):
                         with open(pth, "wb") as fh:
                             fh.write(b"STALE\n" + data + b"\nstale tail line\n" * 40)
                     run(args_for(input_abs(home), out), sb.path("cwd"))
+                elif kind == "prefilled-whitespace-twin":
+                    # the output already holds pages that differ from the new ones in white space only
+                    for path, data in base.items():
+                        pth = os.path.join(out, path)
+                        os.makedirs(os.path.dirname(pth), exist_ok=True)
+                        with open(pth, "wb") as fh:
+                            fh.write(b"\n".join(l.strip() for l in data.split(b"\n") if l.strip()) + b"\n")
+                    run(args_for(input_abs(home), out), sb.path("cwd"))
+                elif kind == "via-symlinked-parent":
+                    # the absolute location of the tree contains a symbolic link (a linked parent directory)
+                    lnk = sb.path("else", f"lnk{i}")
+                    os.symlink(sb.path("loc1"), lnk)
+                    run(args_for(input_abs(os.path.join(lnk, "in")), out), sb.path("cwd"))
                 elif kind == "same":
                     run(args_for(input_abs(home), out), sb.path("cwd"))
                 elif kind == "order":
@@ -236,7 +249,7 @@ def evaluate(case):
             res.labels.append("symlinked-directory:" + alias)
         if shared_excluded:
             res.labels.append("shared-top-index-excluded")
-        special = {"prefilled-output", "cwd-inside-sub", "moved", "cwd-rel", "cwd-dotslash", "cwd-updown", "cwd-dot", "others-before", "others-both", "api-successive"}
+        special = {"prefilled-whitespace-twin", "via-symlinked-parent", "prefilled-output", "cwd-inside-sub", "moved", "cwd-rel", "cwd-dotslash", "cwd-updown", "cwd-dot", "others-before", "others-both", "api-successive"}
         res.nontrivial = len(set(kinds)) >= 2 and bool(set(kinds) & special)
         if res.nontrivial:
             res.sample = {"files": files, "lone": lone, "prefix": case["prefix"], "history": [h[0] for h in case["history"]]}
